@@ -346,6 +346,10 @@ def run(ctx):
             ctx.probes["fixture_unparsable"] += 1
             raise Skip()
         raise Violation("C08/generated-input-rejected", "DomainParser", f"{type(e).__name__}: {e}")
+    if not use_fixture and cfg.draw(4) == 0:
+        # the model is edited through the object API before it is exported (same meaning, a shape the parser never
+        # builds: one UniversalEffect holding several conditional effects)
+        C.merge_foralls(ctx, d1)
     w1 = walk(d1, "DomainParser")
     rich = any(e[0] in ("when", "forall", "num") for a in w1["actions"].values() for e in a["eff"]) or any(
         x[0] in ("=", "neq", "cmp") for a in w1["actions"].values() for x in a["pre"][1])
@@ -469,6 +473,12 @@ def overwrite_same_path(ctx, W, text, path, exporter, ops, site):
     i = spots[ops.draw(len(spots))]
     new_digit = str((int(text[i]) % 9) + 1)
     text_b = text[:i] + new_digit + text[i + 1:]
+    if len(W.D["actions"]) >= 2 and ops.chance(1, 2):
+        # variant: the domain without its last action - a SHORTER export over the same path (nothing of the longer
+        # file may survive)
+        D2 = dict(W.D, actions=dict(list(W.D["actions"].items())[:-1]))
+        text_b = G.render_domain(D2, child_first=W.feat.get("child_first_types", False))
+        ctx.probes["same_path_shorter_content"] += 1
     try:
         ctx.new_epoch()
         db = C.parse_domain(ctx, text_b, "variant.pddl")
